@@ -33,7 +33,7 @@ def gen_cases(tier, seed):
     # (1) every dictionary entry once (type-directed value, rotating M / P requests)
     flagsets = [(None, None), (True, None), (False, True), (None, True), (True, False), (False, None)]
     for i, e in enumerate(entries):
-        reps = 3 if tier == "thorough" else 1
+        reps = 8 if tier == "thorough" else 1
         for j in range(reps):
             r, s = codec.random_avp(rng, entries, code_vendor_entry=e, max_depth=2)
             M, P = flagsets[(i + j) % len(flagsets)]
@@ -63,10 +63,10 @@ def gen_cases(tier, seed):
         pv, vs = codec.v_bytes(bytes(rng.getrandbits(8) for _ in range(n)))
         add({"code": ostr[0], "vendor": ostr[1], "kind": "bytes", "value": pv, "M": True, "P": None},
             {"code": codec.limbs(ostr[0], 2), "vendor": codec.limbs(ostr[1], 2), "M": True, "P": False, "val": vs}, "octets")
-    for _ in range(600 if tier == "thorough" else 60):
+    for _ in range(4000 if tier == "thorough" else 60):
         r, s = codec.random_avp(rng, by_kind["group"] + entries[:50], max_depth=6, code_vendor_entry=rng.choice(by_kind["group"]))
         add(r, s, "grouped")
-    for _ in range(20000 if tier == "thorough" else 1500):
+    for _ in range(120000 if tier == "thorough" else 1500):
         r, s = codec.random_avp(rng, entries, max_depth=2)
         add(r, s, "random")
     return cases, by_kind
